@@ -24,6 +24,12 @@ def registry_same(S0, S, gname):
     return z3.And(S.len(L) == S0.len(L), S.A('eltI')[L] == S0.A('eltI')[L])
 
 
+def no_point_or_expression_allocated(S0, S):
+    r = fresh('r', I)
+    return z3.ForAll([r], z3.Implies(z3.And(r >= S0.alloc, r < S.alloc), z3.And(
+        z3.Not(isinstance_f(S.A('cls'), r, 'Point')), z3.Not(isinstance_f(S.A('cls'), r, 'Expression')))))
+
+
 def init_contract(cls, path, registry, extra_fields=()):
     """Point.__init__ and Expression.__init__ have the same shape"""
     cnt = cls + '.counter'
@@ -43,6 +49,7 @@ def init_contract(cls, path, registry, extra_fields=()):
                 z3.Not(S.fld_none(cls, 'counter', s)), S.fld(cls, 'counter', s) == S0.g(cnt),
                 S.g(cnt) == S0.g(cnt) + 1)), 'aux'),
             ('leaf.registry', z3.Implies(leaf, registry_appended(S0, S, registry, s)), 'aux'),
+            ('no_other_object', no_point_or_expression_allocated(S0, S), 'aux'),
             ('nonleaf.dict', z3.Implies(z3.Not(leaf), d == a['decomposition_dict'].t), 'property'),
             ('nonleaf.counter', z3.Implies(z3.Not(leaf), z3.And(
                 S.fld_none(cls, 'counter', s), S.g(cnt) == S0.g(cnt), registry_same(S0, S, registry))), 'aux'),
